@@ -14,11 +14,11 @@ def run(ctx, law):
     fd, out = tempfile.mkstemp(prefix='pmon-pytest-', suffix='.json')
     os.close(fd)
     env = dict(os.environ, PMON_PLUGIN_OUT=out, PYTHONHASHSEED='0', PYTHONDONTWRITEBYTECODE='1',
-               PYTHONPATH=os.pathsep.join(['/repo', core.ROOT, os.path.join(core.ROOT, '.deps')]))
+               PYTHONPATH=os.pathsep.join([core.REPO, core.ROOT, os.path.join(core.ROOT, '.deps')]))
     try:
         r = subprocess.run([sys.executable, '-B', '-m', 'pytest', '-p', 'pmon.pytest_plugin', '-q',
                             '-p', 'no:cacheprovider', '-x', '--timeout=900', 'tests'],
-                           cwd='/repo', env=env, capture_output=True, text=True, timeout=900)
+                           cwd=core.REPO, env=env, capture_output=True, text=True, timeout=900)
         try:
             with open(out) as fh:
                 res = json.load(fh)
